@@ -1216,7 +1216,7 @@ impl Prop for C20 {
         run(c, o)
     }
     fn rule() -> &'static str {
-        "proptest over four families. (a) set: ErrorDetails with each of the ten google.rpc kinds optional (density 12/35/75/100 %), built by set_*, add_* or with_* constructors in a rotated call order; (b) list: Vec<ErrorDetail> of 0-7 items, kinds may repeat. Both: Unicode strings (controls, %, 2/3/4-byte UTF-8, empty), 0-4 violations/links/stack entries/map entries, retry delay None or in [0, 315576000000 s 999999999 ns] with the boundary and over-the-boundary values (RetryInfo::new documents clamping; the clamped value is expected), codes 1-16, Unicode message, optional metadata. Judged: the details bytes read by the harness's protobuf reader per status.proto / error_details.proto (code, message, count, type_url, every field), then Status::add_header -> from_header_map -> check_error_details_vec (same kinds, order, fields), check_error_details (per kind: present iff attached, value = an attached one), get_error_details[_vec] equal to check_*, ten get_details_* = first of the kind. (c) foreign: google.rpc.Status written by the harness's own writer (optional explicit defaults / reversed field order, negative durations -> 0 per the RetryInfo docs) decoded by tonic. (d) totality: mutated harness-written encodings (0-3 byte edits; unknown/near-miss type URLs; raw Duration extremes) and arbitrary bytes through all 14 decode entry points: no panic, Err => empty result, getters = first of kind, set and vec agree, the RpcStatusExt accessors on the prost-decoded google.rpc.Status agree with the StatusExt ones, decode -> re-encode -> decode stable. Non-trivial: (a-c) >=2 kinds or a repeated kind or a non-ASCII string; (d) non-empty details. Distinct = distinct serialised case. Also: grpc-status-details-bin re-padded by the peer when the encoded google.rpc.Status is 1 mod 3 long."
+        "proptest over four families. (a) set: ErrorDetails with each of the ten google.rpc kinds optional (density 12/35/75/100 %), built by set_*, add_* or with_* constructors in a rotated call order; (b) list: Vec<ErrorDetail> of 0-7 items, kinds may repeat. Both: Unicode strings (controls, %, 2/3/4-byte UTF-8, empty), 0-4 violations/links/stack entries/map entries, retry delay None or in [0, 315576000000 s 999999999 ns] with the boundary and over-the-boundary values (RetryInfo::new documents clamping; the clamped value is expected), codes 1-16, Unicode message, optional metadata. Judged: the details bytes read by the harness's protobuf reader per status.proto / error_details.proto (code, message, count, type_url, every field), then Status::add_header -> from_header_map -> check_error_details_vec (same kinds, order, fields), check_error_details (per kind: present iff attached, value = an attached one), get_error_details[_vec] equal to check_*, ten get_details_* = first of the kind. (c) foreign: google.rpc.Status written by the harness's own writer (optional explicit defaults / reversed field order, negative durations -> 0 per the RetryInfo docs) decoded by tonic. (d) totality: mutated harness-written encodings (0-3 byte edits; unknown/near-miss type URLs; raw Duration extremes) and arbitrary bytes through all 14 decode entry points: no panic, Err => empty result, getters = first of kind, set and vec agree, the RpcStatusExt accessors on the prost-decoded google.rpc.Status agree with the StatusExt ones, decode -> re-encode -> decode stable. Non-trivial: (a-c) >=2 kinds or a repeated kind or a non-ASCII string; (d) non-empty details. Distinct = distinct serialised case. Also: grpc-status-details-bin re-padded by the peer when the encoded google.rpc.Status is 1 mod 3 long. Statuses built with metadata carry a forged grpc-status-details-bin metadata entry in a third of the cases (the details win)."
     }
     fn assumptions() -> Vec<String> {
         vec![
